@@ -24,14 +24,6 @@ WF = ['forall(lambda n: implies(n in self.graph.index_nodes, n in self.in_ and n
 
 
 def register(w):
-  w.add_class(ClassInfo('Scope', module='malt.pyct.static_analysis.activity', fields={
-      'read': 'Set[QN]', 'modified': 'Set[QN]', 'deleted': 'Set[QN]', 'bound': 'Set[QN]',
-      'globals': 'Set[QN]', 'nonlocals': 'Set[QN]', 'annotations': 'Set[QN]',
-      'isolated_names': 'Set[QN]', 'params': 'Dict[QN,AST]', 'parent': 'Opt[Scope]',
-      'isolated': 'bool', 'is_final': 'bool', 'function_name': 'Any'},
-      properties=['enclosing_scope', 'referenced', 'free_vars']))
-  w.add_class(ClassInfo('QN', module='malt.pyct.qual_names', eq='value'))
-  w.add_class(ClassInfo('Lambda', bases=['AST']))
   w.add_class(ClassInfo('LiveAnalyzer', pyname='Analyzer', module='malt.pyct.static_analysis.liveness',
                         bases=['GraphVisitor'], fields={'include_annotations': 'bool', 'in_': 'Dict[Node,Set[QN]]',
                                                       'out': 'Dict[Node,Set[QN]]'}))
